@@ -9,6 +9,7 @@ import (
 	"runtime"
 	"strconv"
 	"sync"
+	"sync/atomic"
 	"time"
 
 	"github.com/hprose/hprose-golang/v3/io"
@@ -27,6 +28,7 @@ type c16Call struct {
 	Idem    *bool  `json:"idem"`    // context item "idempotent" (absent = plugin default)
 	Retry   *int   `json:"retry"`   // context item "retry"
 	Retried *int   `json:"retried"` // context item "retried" preset by the caller
+	Health  string `json:"health"`  // burst probes: outcome by URL instead of by attempt: per server D (down: error) or U (up: response)
 }
 
 type c16Case struct {
@@ -40,6 +42,10 @@ type c16Case struct {
 	MinNs int64     `json:"min_ns"` // WithMinInterval (failover / failtry); tiny, so that sleeping costs microseconds
 	MaxNs int64     `json:"max_ns"` // WithMaxInterval
 	Calls []c16Call `json:"calls"`
+	// burst: Rounds x (Goroutines x Iters concurrent calls with every server down, then Calls as sequential probes)
+	Goroutines int `json:"goroutines"`
+	Iters      int `json:"iters"`
+	Rounds     int `json:"rounds"`
 	// fork / bcast
 	Outs  string `json:"outs"`  // outcome per server
 	Order []int  `json:"order"` // completion order forced by the scripted handler
@@ -57,8 +63,9 @@ type c16CallObs struct {
 }
 
 type c16Obs struct {
-	ID    int          `json:"id"`
-	Calls []c16CallObs `json:"calls,omitempty"`
+	ID     int            `json:"id"`
+	Calls  []c16CallObs   `json:"calls,omitempty"`
+	Rounds [][]c16CallObs `json:"rounds,omitempty"` // burst: the probes of every round
 	// fork / bcast
 	Invoked      []int    `json:"invoked,omitempty"` // URL index of every invocation, in arrival order
 	Res          string   `json:"res,omitempty"`     // R<i> / E<i> / P<i> / X<i> (i = server) / ?
@@ -471,6 +478,125 @@ func runFan(c *c16Case, obs *c16Obs) {
 	}
 }
 
+// runBurst: failover plugin on a client with N URLs. Every round first fires Goroutines x
+// Iters calls concurrently while every server is down (the failures of different calls
+// race inside the shared failover closure), waits for all of them, and then runs the
+// probe calls sequentially, recorded like the calls of runRetry. Nothing is observed
+// during the burst; how the burst interleaved is unknown, the probes show the state it left.
+func runBurst(c *c16Case, obs *c16Obs) {
+	client := newClient(c.N)
+	var bursting int32
+	var nfail, nsucc int64
+	var ivs []int64
+	cfg := cluster.FailoverConfig(
+		cluster.WithRetry(c.Retry), cluster.WithIdempotent(c.Idem),
+		cluster.WithMinInterval(time.Duration(c.MinNs)), cluster.WithMaxInterval(time.Duration(c.MaxNs)))
+	rotate, onRetry := cfg.OnFailure, cfg.OnRetry
+	cfg.OnFailure = func(ctx context.Context) {
+		rotate(ctx)
+		if atomic.LoadInt32(&bursting) == 0 {
+			nfail++
+		}
+	}
+	cfg.OnRetry = func(ctx context.Context) time.Duration {
+		d := onRetry(ctx)
+		if atomic.LoadInt32(&bursting) == 0 {
+			ivs = append(ivs, int64(d))
+		}
+		return d
+	}
+	cfg.OnSuccess = func(ctx context.Context) {
+		if atomic.LoadInt32(&bursting) == 0 {
+			nsucc++
+		}
+	}
+	errDown := errors.New("down-burst")
+	ci, k := 0, 0
+	var urls []int
+	scripted := func(ctx context.Context, request []byte, next core.NextIOHandler) ([]byte, error) {
+		if atomic.LoadInt32(&bursting) == 1 {
+			return nil, errDown
+		}
+		a := k
+		k++
+		u := urlIndex(client, core.GetClientContext(ctx))
+		urls = append(urls, u)
+		if a >= runawayCap {
+			return response(fmt.Sprintf("ok-%d-%d", ci, a)), nil
+		}
+		call := c.Calls[ci]
+		var o byte = 'E'
+		if call.Health != "" {
+			if u >= 0 && u < len(call.Health) && call.Health[u] == 'U' {
+				o = 'O'
+			}
+		} else if a < len(call.Outs) {
+			o = call.Outs[a]
+		} else {
+			return nil, errors.New(fmt.Sprintf("down-%d-999", ci))
+		}
+		switch o {
+		case 'O':
+			return response(fmt.Sprintf("ok-%d-%d", ci, a)), nil
+		case 'E':
+			return nil, errors.New(fmt.Sprintf("down-%d-%d", ci, a))
+		default:
+			panic(fmt.Sprintf("boom-%d-%d", ci, a))
+		}
+	}
+	client.Use(cluster.New(cfg))
+	client.Use(core.IOHandler(scripted))
+	for r := 0; r < c.Rounds; r++ {
+		atomic.StoreInt32(&bursting, 1)
+		var wg sync.WaitGroup
+		start := make(chan struct{})
+		for g := 0; g < c.Goroutines; g++ {
+			wg.Add(1)
+			go func() {
+				defer wg.Done()
+				<-start
+				for i := 0; i < c.Iters; i++ {
+					cc := core.NewClientContext()
+					_, _ = client.InvokeContext(core.WithContext(context.Background(), cc), "f", nil)
+				}
+			}()
+		}
+		close(start)
+		wg.Wait()
+		atomic.StoreInt32(&bursting, 0)
+		var round []c16CallObs
+		for ci = 0; ci < len(c.Calls); ci++ {
+			call := c.Calls[ci]
+			cc := core.NewClientContext()
+			if call.Idem != nil {
+				cc.Items().Set("idempotent", *call.Idem)
+			}
+			if call.Retry != nil {
+				cc.Items().Set("retry", *call.Retry)
+			}
+			k, urls, nfail, nsucc, ivs = 0, nil, 0, 0, nil
+			o := c16CallObs{}
+			func() {
+				defer func() {
+					if e := recover(); e != nil {
+						o.Res = "X"
+						o.Msg = fmt.Sprint(e)
+					}
+				}()
+				res, err := client.InvokeContext(core.WithContext(context.Background(), cc), "f", nil)
+				o.Res, o.Msg = classify(res, err, ci)
+			}()
+			o.URLs = append([]int{}, urls...)
+			o.Retried = cc.Items().GetInt("retried")
+			o.URL = urlIndex(client, cc)
+			o.NFail, o.NSucc = int(nfail), int(nsucc)
+			o.Iv = append([]int64{}, ivs...)
+			round = append(round, o)
+		}
+		obs.Rounds = append(obs.Rounds, round)
+	}
+}
+
 func c16Run(line []byte, out *json.Encoder) error {
 	var c c16Case
 	if err := json.Unmarshal(line, &c); err != nil {
@@ -482,6 +608,8 @@ func c16Run(line []byte, out *json.Encoder) error {
 		runRetry(&c, &obs)
 	case "fork", "bcast":
 		runFan(&c, &obs)
+	case "burst":
+		runBurst(&c, &obs)
 	default:
 		return errors.New("c16: kind " + c.Kind)
 	}
